@@ -85,6 +85,10 @@ def run(pid, tier, ev=None, vd=None, finish=True):
                 if pol == "seq":
                     job["order"] = [sid for sid in sids for _ in range(60)]
                 jobs.append(job)
+        # a Put aimed at a directory (it cannot become the live content, so it must not be acknowledged as committed)
+        for k in range(4):
+            jobs.append({"prog": "putdir", "program": {1: [("put", "d", None, "c2"), ("get", "d/k")], 2: [("put", "f", "c1", "c3"), ("get", "d")]},
+                         "init": {"f": "c1", "d/k": "c1"}, "policy": "random", "seed": vlib.seed() * 17 + k, "src": "corpus"})
         # the lock itself as the suspect: every multi-commit program under the lock-stress policy
         for prog, program in [("casrace3", hr.CASRACE3), ("three", hr.EXTRA["three"]), ("deldel", hr.EXTRA["deldel"]), ("putput", hr.PROGRAMS["putput"]),
                               ("create", hr.PROGRAMS["create"]), ("putdel", hr.PROGRAMS["putdel"])]:
